@@ -11,7 +11,14 @@ VEC_MAKERS = ('std::boxed::box_assume_init_into_vec_unsafe', 'std::slice::<impl 
 THROUGH = set(TRANSPARENT_CALLS) | {'std::clone::Clone::clone'}
 
 
-FN_CONSTS = {}      # 'fn:<uid>' -> the constant operand (to specialise a handler on the fn it captured)
+FN_CONSTS = {}      # 'fn:<uid>' / 'enum:<adt>::<variant>' -> the constant operand (to specialise a handler on what it captured)
+
+
+class EnumVal(str):
+    """the name of a field-less enum variant used as a constant (compares equal to the plain name); .adt / .vi / .key"""
+    adt = None
+    vi = None
+    key = None
 
 
 def _const_val(body, op):
@@ -30,7 +37,12 @@ def _const_val(body, op):
             return 'fn:' + o.data['fn']['uid']      # a fn item (possibly coerced to a fn pointer)
         return None
     if o.kind == 'agg' and not o.proj and o.data[2]['agg'] == 'adt' and not o.data[2]['ops']:
-        return o.data[2]['variant']
+        rv = o.data[2]
+        ev = EnumVal(rv['variant'])
+        ev.adt, ev.vi = rv.get('adt'), rv.get('vi')
+        ev.key = 'enum:%s::%s' % (ev.adt, rv['variant'])
+        FN_CONSTS[ev.key] = {'k': 'const', 'ty': ev.adt or '', 's': '%s::%s' % (ev.adt, rv['variant']), 'enum': {'adt': ev.adt, 'variant': rv['variant'], 'vi': ev.vi}}
+        return ev
     if o.kind == 'agg' and not o.proj and o.data[2]['agg'] == 'closure' and not o.data[2]['ops']:
         # a non-capturing closure used as a fn pointer (`bool_handler(|a, b| a || b)`)
         key = 'fn:' + o.data[2]['closure']
@@ -162,6 +174,26 @@ def handler_closure(prog, body, op):
     return None
 
 
+def closure_enum_binds(prog, body, op):
+    """{captured-variable index: descriptor} for the captured values of the handler closure that are field-less enum
+    constants (`Arc::new(move |l, r| .. match kind ..)` with `kind` drawn from the table row)"""
+    o = single_origin(trace_operand(body, op, through_calls=THROUGH))
+    if o is None or o.kind != 'callres' or not (o.data.callee or '').endswith('::new') or not o.data.args:
+        return {}
+    a = single_origin(trace_operand(body, o.data.args[0], through_calls=THROUGH))
+    if a is None or a.kind != 'agg' or a.data[2]['agg'] != 'closure':
+        return {}
+    out = {}
+    for i, x in enumerate(a.data[2]['ops']):
+        av = arg_values(body, x)
+        if av is None:
+            continue
+        vals = [av[1]] if av[0] == 'const' else av[3]
+        if vals and (all(isinstance(v, EnumVal) for v in vals) or all(isinstance(v, str) and v.startswith('fn:') for v in vals)):
+            out[i] = av
+    return out
+
+
 def handler_elem(prog, body, op):
     """handler = Arc::new(f) where f is the fn-pointer component of the table element being registered:
     the 'elem' descriptor whose values are 'fn:<uid>'"""
@@ -242,8 +274,21 @@ def builtin_rows(prog, rm):
     registration is followed through wrapper / generic helpers down to the map insert"""
     rows = []
     problems = []
+    fbs = []
     for fid in rm.fillers:
         fb = prog.by_id[fid]
+        if fb.is_closure and fb.j.get('parent') in prog.by_id:
+            # registrations made inside a closure handed to an iterator adaptor (`[..].into_iter().for_each(|op| self.register(op, ..))`):
+            # read in the enclosing body with the pipeline written out as a loop
+            pv = prog.view(prog.by_id[fb.j['parent']], keep=lambda g: True, tag='comb')
+            if getattr(pv, 'is_view', False) and fb.name in (pv.j.get('inlined') or []):
+                fb = pv
+        if fb not in fbs and not any(getattr(x, 'orig_id', x.id) == getattr(fb, 'orig_id', fb.id) and getattr(x, 'is_view', False) for x in fbs):
+            fbs.append(fb)
+    # a filler that is itself read through a view of it must not be read twice
+    vids = {getattr(x, 'orig_id', None) for x in fbs if getattr(x, 'is_view', False)}
+    fbs = [x for x in fbs if getattr(x, 'is_view', False) or x.id not in vids]
+    for fb in fbs:
         for c in fb.live_calls:
             if c.ruid not in rm.family:
                 continue
@@ -259,7 +304,7 @@ def builtin_rows(prog, rm):
                     continue
                 clo = handler_closure(prog, fb, a)
                 if clo:
-                    descs.append(('handler', clo, {}))
+                    descs.append(('handler', clo, closure_enum_binds(prog, fb, a)))
                     continue
                 he = handler_elem(prog, fb, a)
                 if he is not None:
